@@ -48,7 +48,11 @@ class Pattern:
             return "__MV_" + t[1:] + "__"
 
         py = _MV.sub(sub, src)
-        tree = ast.parse(py)
+        try:
+            tree = ast.parse(py)
+        except SyntaxError:
+            # `f(a, k=v, ...)`: the rest marker after keywords
+            tree = ast.parse(re.sub(r",\s*\.\.\.\s*\)", ", **__REST__)", py))
         if len(tree.body) != 1:
             raise ValueError(f"pattern must be one statement or expression: {src!r}")
         st = tree.body[0]
@@ -107,6 +111,9 @@ def match(p, n, b: dict, expanded: bool = False, exp=None) -> bool:
             if pargs and _is_ellipsis(pargs[-1]):
                 pargs = pargs[:-1]
                 rest = True
+            pkeywords = [k for k in p.keywords if not (k.arg is None and isinstance(k.value, ast.Name) and k.value.id == "__REST__")]
+            if len(pkeywords) != len(p.keywords):
+                rest = True
             if rest:
                 if len(n.args) < len(pargs):
                     # positional in the pattern may be given by keyword in the code: not supported -> no match
@@ -117,7 +124,7 @@ def match(p, n, b: dict, expanded: bool = False, exp=None) -> bool:
                 if not match(pa, na, b, expanded, exp):
                     return False
             nk = {k.arg: k.value for k in n.keywords}
-            for k in p.keywords:
+            for k in pkeywords:
                 if k.arg is None:
                     cands = [x.value for x in n.keywords if x.arg is None]
                     if not any(match(k.value, c, b, expanded, exp) for c in cands):
@@ -125,7 +132,7 @@ def match(p, n, b: dict, expanded: bool = False, exp=None) -> bool:
                     continue
                 if k.arg not in nk or not match(k.value, nk[k.arg], b, expanded, exp):
                     return False
-            if not rest and {k.arg for k in p.keywords} != set(nk) | ({None} if any(x.arg is None for x in n.keywords) else set()):
+            if not rest and {k.arg for k in pkeywords} != set(nk) | ({None} if any(x.arg is None for x in n.keywords) else set()):
                 return False
             return True
         for f, pv in ast.iter_fields(p):
